@@ -425,17 +425,26 @@ theorem cursors_get (G : Grid XReal) (hp : 0 < G.nphi) (it im ip : Nat) (h1 : it
   rw [List.getElem?_map, List.getElem?_range h3]
   rfl
 
-/-- **`fill_arrays_and_bins` returns on a printed grid** (first half of the hypothesis of `grid_scores_attached`): when no
-block has more rows than the first one and the rows of the first block continue each other (the lower bound of a group is
-the upper bound of the group printed before it — what `_check_bins` demands), reading the blocks raises neither the
-`bins` nor the `index` error: every block but the first is read under indices other than (0, 0, 0), in range.  Not yet
-proved: that the last edges are then found (`add_last_bins` needs the numbers of mu and phi edges collected, `nmu` and
-`nphi` on a grid), which is the other half of "`convert` returns". -/
+/-- **`fill_arrays_and_bins` returns on a printed grid**: when no block has more rows than the first one and the rows of
+the first block continue each other (the lower bound of a group is the upper bound of the group printed before it — what
+`_check_bins` demands), reading the blocks raises neither the `bins` nor the `index` error: every block but the first is
+read under indices other than (0, 0, 0), in range. -/
 theorem grid_fill_returns (G : Grid XReal) (ht : 0 < G.nt) (hm : 0 < G.nmu) (hp : 0 < G.nphi)
     (hrows : ∀ it im ip, it < G.nt → im < G.nmu → ip < G.nphi → (G.rows it im ip).length ≤ (G.rows 0 0 0).length)
     (hc : RowsContig (G.rows 0 0 0) 0 (G.rows 0 0 0)) :
     ∃ b, fill { ne := (G.rows 0 0 0).length, nt := G.nt, nmu := G.nmu, nphi := G.nphi } G.blocks = .ok b :=
   fill_grid_returns G ht hm hp hrows hc
+
+/-- **`convert_spectrum` returns on a printed grid** — the hypothesis of `grid_scores_attached` discharged: `fill` returns
+(above), it has collected exactly one edge per mu zone and per phi zone (`muKeys_grid`, `phiKeys_grid`: the first printed
+bounds, in order), so `add_last_bins` looks for the last edges in the blocks that carry them (`negBlock_grid`), and the
+last block has a row to close the energy grid with. -/
+theorem grid_convert_returns (G : Grid XReal) (ht : 0 < G.nt) (hm : 0 < G.nmu) (hp : 0 < G.nphi)
+    (hrows : ∀ it im ip, it < G.nt → im < G.nmu → ip < G.nphi → (G.rows it im ip).length ≤ (G.rows 0 0 0).length)
+    (hlast : G.rows (G.nt - 1) (G.nmu - 1) (G.nphi - 1) ≠ [])
+    (hc : RowsContig (G.rows 0 0 0) 0 (G.rows 0 0 0)) :
+    ∃ sp, convert G.blocks = .ok sp :=
+  convert_grid_returns G ht hm hp hrows hlast hc
 
 /-- non-vacuity: two groups that continue each other satisfy `RowsContig` -/
 example : RowsContig [(⟨fin 1, fin 2, fin 7, fin 1, fin 0⟩ : Row XReal), ⟨fin 2, fin 3, fin 8, fin 1, fin 0⟩] 0
@@ -476,5 +485,24 @@ theorem grid_scores_attached (G : Grid XReal) (ht : 0 < G.nt) (hm : 0 < G.nmu) (
   refine ⟨fe, ft, fm, fp, eb', tb', mb', pb', e1, e2, e3, e4, e5, e6, e7, e8, r1, ?_⟩
   simp only [hblk] at hcell
   exact hcell
+
+/-- **a response printed over a full grid is read, and read right** (`grid_convert_returns` + `grid_scores_attached`):
+`convert` returns, with the three dimensions of the grid, and every printed row is the content of the cell at its
+indices, each axis read through the flip applied to its bins -/
+theorem grid_read (G : Grid XReal) (ht : 0 < G.nt) (hm : 0 < G.nmu) (hp : 0 < G.nphi)
+    (hrows : ∀ it im ip, it < G.nt → im < G.nmu → ip < G.nphi → (G.rows it im ip).length ≤ (G.rows 0 0 0).length)
+    (hlast : G.rows (G.nt - 1) (G.nmu - 1) (G.nphi - 1) ≠ [])
+    (hc : RowsContig (G.rows 0 0 0) 0 (G.rows 0 0 0)) :
+    ∃ sp, convert G.blocks = .ok sp ∧
+      ∀ (it im ip ie : Nat) (_ : it < G.nt) (_ : im < G.nmu) (_ : ip < G.nphi) (_ : ie < (G.rows it im ip).length),
+        sp.nt = G.nt ∧ sp.nmu = G.nmu ∧ sp.nphi = G.nphi ∧ sp.ne = (G.rows 0 0 0).length ∧
+        ∃ (fe ft fm fp : Bool) (eb tb mb pb : List XReal),
+          sp.ebins = orientL fe eb ∧ fe = decreasing eb ∧ sp.tbins = orientL ft tb ∧ ft = decreasing tb ∧
+          sp.mubins = orientL fm mb ∧ fm = decreasing mb ∧ sp.phibins = orientL fp pb ∧ fp = decreasing pb ∧
+          ie < sp.ne ∧
+          sp.cells[((ixf fe sp.ne ie * sp.nt + ixf ft sp.nt it) * sp.nmu + ixf fm sp.nmu im) * sp.nphi
+            + ixf fp sp.nphi ip]? = some (some (G.rows it im ip)[ie]) := by
+  obtain ⟨sp, hsp⟩ := grid_convert_returns G ht hm hp hrows hlast hc
+  exact ⟨sp, hsp, fun it im ip ie h1 h2 h3 h4 => grid_scores_attached G ht hm hp hsp it im ip ie h1 h2 h3 h4⟩
 
 end T4Spec
